@@ -109,6 +109,10 @@ func (g *ExecutionGraph) cycleDfs(t string, visited map[string]bool) error {
 		}
 	}
 
+	// t is no longer on the current DFS path: reaching it again along another
+	// path (a diamond, or a duplicated dependency) is not a cycle
+	delete(visited, t)
+
 	return nil
 }
 
